@@ -1,6 +1,7 @@
 /* ================================================================== printing (C04, C05, C08, C09, C14) */
 /* ghost record of the last ensure() call as seen by a writer (callee view), and of delegated writers */
 unsigned char *g_ens_win; _Bool g_ens_ok; size_t g_ens_needed; size_t g_ens_calls;   /* scalars only: ghost pointers set by assumption cannot be dereferenced */
+_Bool g_pv_nullbuf;   /* ghost: the value printer came back with a released (NULL) buffer */
 unsigned char g_snap;      /* ghost snapshot: byte of the old buffer at index g_k (constrained by a requires clause) */
 #define GHOST_ENS g_ens_win, g_ens_ok, g_ens_needed, g_ens_calls
 
@@ -141,3 +142,107 @@ __CPROVER_ensures((item != NULL && output_buffer != NULL && PV_T != cJSON_NULL &
 __CPROVER_ensures(LIVE_SAME) /*@C08*/
 __CPROVER_assigns(GHOST_ENS, GHOST_ALLOC, GHOST_LOG, GHOST_WB; output_buffer != NULL: output_buffer->buffer, output_buffer->length, output_buffer->offset, output_buffer->depth);
 #endif
+
+/* ------------------------------------------------------------------ update_offset (strlen model with a hinted terminator) */
+#define UO_USABLE(b) ((b) != NULL && (b)->buffer != NULL)
+static void update_offset(printbuffer * const buffer)
+#ifdef VF_ENF_update_offset
+__CPROVER_requires(buffer == NULL || (__CPROVER_is_fresh(buffer, sizeof(printbuffer)) && (buffer->buffer == NULL || (buffer->length <= VF_MAXLEN &&
+    __CPROVER_is_fresh(buffer->buffer, buffer->length) && buffer->offset < buffer->length && g_nul_at < buffer->length - buffer->offset && buffer->buffer[buffer->offset + g_nul_at] == 0))))
+#else
+__CPROVER_requires(__CPROVER_is_fresh(buffer, sizeof(printbuffer)) && buffer->buffer != NULL && buffer->offset < buffer->length && g_nul_at < buffer->length - buffer->offset &&
+    __CPROVER_r_ok(buffer->buffer, buffer->length) && buffer->buffer[buffer->offset + g_nul_at] == 0)
+#endif
+/* the offset moves to the first NUL at or after it */
+__CPROVER_ensures(UO_USABLE(buffer) ==> (buffer->offset >= __CPROVER_old(buffer->offset) && buffer->offset - __CPROVER_old(buffer->offset) <= g_nul_at && buffer->buffer[buffer->offset] == 0)) /*@C04 C05 C09*/
+__CPROVER_ensures((UO_USABLE(buffer) && g_k < buffer->offset - __CPROVER_old(buffer->offset)) ==> buffer->buffer[__CPROVER_old(buffer->offset) + g_k] != 0) /*@C04 C05*/
+__CPROVER_assigns(UO_USABLE(buffer): buffer->offset);
+
+/* ------------------------------------------------------------------ print_value as seen by the entry points (callee views) */
+unsigned char g_txt_k;   /* ghost: byte g_k of the text print_value left in the buffer */
+#ifdef VF_VIEW_PV_ALLOC
+/* allocating callers: afterwards the buffer is NULL (released after an allocation failure) or a live block of `length` bytes;
+ * on success a NUL-terminated token starts at the (old) offset; the tracked block, if it was the buffer, is now the current buffer */
+static cJSON_bool print_value(const cJSON * const item, printbuffer * const output_buffer)
+__CPROVER_requires(__CPROVER_is_fresh(output_buffer, sizeof(printbuffer)))
+__CPROVER_ensures(g_disp == D_VALUE && g_disp_ret == __CPROVER_return_value && WB_LOGGED(item, output_buffer))
+__CPROVER_ensures(__CPROVER_return_value ==> (__CPROVER_is_fresh(output_buffer->buffer, output_buffer->length) && output_buffer->length <= INT_MAX && output_buffer->offset < output_buffer->length &&
+    g_nul_at < output_buffer->length - output_buffer->offset && output_buffer->buffer[output_buffer->offset + g_nul_at] == 0 &&
+    (g_k >= output_buffer->length || output_buffer->buffer[g_k] == g_txt_k) && g_pv_end == output_buffer->offset))
+__CPROVER_ensures(!__CPROVER_return_value ==> (g_pv_nullbuf ? (output_buffer->buffer == NULL && output_buffer->length == 0) : (__CPROVER_is_fresh(output_buffer->buffer, output_buffer->length) && output_buffer->length <= INT_MAX)))
+__CPROVER_ensures((__CPROVER_old(g_live) != NULL && __CPROVER_old(g_live) == (void*)__CPROVER_old(output_buffer->buffer)) ? g_live == (void*)output_buffer->buffer : LIVE_SAME)
+__CPROVER_ensures(C14_POST(output_buffer->hooks))
+__CPROVER_assigns(output_buffer->buffer, output_buffer->length, output_buffer->offset, output_buffer->depth, GHOST_LOG, GHOST_WB, GHOST_ALLOC, g_nul_at, g_txt_k, g_pv_nullbuf);
+#endif
+#ifdef VF_VIEW_PV_LOG
+static cJSON_bool print_value(const cJSON * const item, printbuffer * const output_buffer)
+__CPROVER_requires(__CPROVER_is_fresh(output_buffer, sizeof(printbuffer)))
+__CPROVER_ensures(g_disp == D_VALUE && g_disp_ret == __CPROVER_return_value && WB_LOGGED(item, output_buffer))
+__CPROVER_ensures(output_buffer->buffer == __CPROVER_old(output_buffer->buffer) && output_buffer->length == __CPROVER_old(output_buffer->length))
+__CPROVER_ensures(LIVE_SAME && g_hook_allocs == __CPROVER_old(g_hook_allocs) && g_hook_frees == __CPROVER_old(g_hook_frees) && g_libc_calls == __CPROVER_old(g_libc_calls))
+__CPROVER_assigns(output_buffer->offset, output_buffer->depth, GHOST_LOG, GHOST_WB, GHOST_ALLOC);
+#endif
+
+/* ------------------------------------------------------------------ print  (cJSON_Print / cJSON_PrintUnformatted) */
+#define WB_START(fmt, noal, h) (g_wb_calls == 1 && g_wb_item == item && g_wb_offset == 0 && g_wb_depth == 0 && g_wb_format == (fmt) && g_wb_noalloc == (noal) && \
+    g_wb_alloc == (h).allocate && g_wb_free == (h).deallocate && g_wb_realloc == (h).reallocate)
+#define NET_BLOCKS (g_hook_allocs - g_hook_frees)
+#define OLD_NET_BLOCKS (__CPROVER_old(g_hook_allocs) - __CPROVER_old(g_hook_frees))
+static unsigned char *print(const cJSON * const item, cJSON_bool format, const internal_hooks * const hooks)
+__CPROVER_requires(__CPROVER_is_fresh(hooks, sizeof(internal_hooks)) && HOOKS_OK(*hooks) && g_wb_calls == 0 && g_live == NULL)
+/* the value printer is started once on the item, at offset 0 and depth 0, with the requested format, allocation allowed, the caller's hooks, a 256-byte block */
+__CPROVER_ensures(g_wb_calls <= 1 && (g_wb_calls == 1 ==> (WB_START(format, 0, *hooks) && g_wb_length == 256))) /*@C05 C04 C14*/
+__CPROVER_ensures(__CPROVER_return_value != NULL ==> (g_wb_calls == 1 && g_disp_ret)) /*@C05 C08*/
+/* failure of the printer or of any allocation: NULL and nothing stays allocated */
+__CPROVER_ensures((g_wb_calls == 1 && !g_disp_ret) ==> __CPROVER_return_value == NULL) /*@C08 C05*/
+__CPROVER_ensures(__CPROVER_return_value == NULL ==> (g_live == NULL)) /*@C08 C07*/
+/* success: exactly one block remains, it is what is returned, it starts a block of the installed allocator (so cJSON_free accepts it),
+ * and it holds the printed text followed by its terminator, byte for byte what the value printer left in its buffer */
+__CPROVER_ensures(__CPROVER_return_value != NULL ==> (__CPROVER_POINTER_OFFSET(__CPROVER_return_value) == 0 &&
+    __CPROVER_DYNAMIC_OBJECT(__CPROVER_return_value) && (g_live == NULL || g_live == (void*)__CPROVER_return_value))) /*@C14 C07 C08*/
+#define RET_SIZE __CPROVER_OBJECT_SIZE(__CPROVER_return_value)
+__CPROVER_ensures(__CPROVER_return_value != NULL ==> (RET_SIZE >= 1 && RET_SIZE - 1 >= g_pv_end && RET_SIZE - 1 - g_pv_end <= g_nul_at)) /*@C04 C05*/
+__CPROVER_ensures((__CPROVER_return_value != NULL && g_k2 == RET_SIZE - 1) ==> __CPROVER_return_value[g_k2] == 0) /*@C04 C05*/
+__CPROVER_ensures((__CPROVER_return_value != NULL && g_k < RET_SIZE - 1) ==> __CPROVER_return_value[g_k] == g_txt_k) /*@C04 C05*/
+__CPROVER_ensures(C14_POST(*hooks)) /*@C14*/
+__CPROVER_assigns(GHOST_LOG, GHOST_WB, GHOST_ALLOC, g_nul_at, g_txt_k, g_pv_nullbuf);
+
+CJSON_PUBLIC(char *) cJSON_PrintBuffered(const cJSON *item, int prebuffer, cJSON_bool fmt)
+__CPROVER_requires(HOOKS_OK(global_hooks) && g_wb_calls == 0 && g_live == NULL)
+__CPROVER_ensures(prebuffer < 0 ==> (__CPROVER_return_value == NULL && g_wb_calls == 0 && g_hook_allocs == __CPROVER_old(g_hook_allocs))) /*@C05 C08*/
+__CPROVER_ensures(g_wb_calls <= 1 && (g_wb_calls == 1 ==> (WB_START(fmt, 0, global_hooks) && g_wb_length == (size_t)prebuffer))) /*@C05 C04 C14*/
+__CPROVER_ensures((g_wb_calls == 1 && !g_disp_ret) ==> __CPROVER_return_value == NULL) /*@C08 C05*/
+__CPROVER_ensures(__CPROVER_return_value != NULL ==> (g_wb_calls == 1 && g_disp_ret)) /*@C05 C08*/
+__CPROVER_ensures(__CPROVER_return_value == NULL ==> (g_live == NULL)) /*@C08 C07*/
+__CPROVER_ensures(__CPROVER_return_value != NULL ==> (__CPROVER_POINTER_OFFSET(__CPROVER_return_value) == 0 &&
+    __CPROVER_DYNAMIC_OBJECT(__CPROVER_return_value) && (g_live == NULL || g_live == (void*)__CPROVER_return_value))) /*@C14 C07 C08*/
+__CPROVER_ensures((__CPROVER_return_value != NULL && g_k < __CPROVER_OBJECT_SIZE(__CPROVER_return_value)) ==> ((unsigned char*)__CPROVER_return_value)[g_k] == g_txt_k) /*@C05 C04*/
+__CPROVER_ensures(C14_POST(global_hooks)) /*@C14*/
+__CPROVER_assigns(GHOST_LOG, GHOST_WB, GHOST_ALLOC, g_nul_at, g_txt_k, g_pv_nullbuf);
+
+CJSON_PUBLIC(cJSON_bool) cJSON_PrintPreallocated(cJSON *item, char *buffer, const int length, const cJSON_bool format)
+__CPROVER_requires(HOOKS_OK(global_hooks) && g_wb_calls == 0 && (buffer == NULL || __CPROVER_is_fresh(buffer, length < 0 ? 0 : (size_t)length)))
+/* refused without touching anything when the length is negative or there is no buffer */
+__CPROVER_ensures((length < 0 || buffer == NULL) ==> (!__CPROVER_return_value && g_wb_calls == 0)) /*@C09*/
+/* otherwise the value printer runs once over exactly the caller's buffer [0, length), allocation forbidden, and its verdict is returned */
+__CPROVER_ensures((length >= 0 && buffer != NULL) ==> (WB_START(format, 1, global_hooks) && g_wb_buffer == (unsigned char*)buffer && g_wb_length == (size_t)length && __CPROVER_return_value == g_disp_ret)) /*@C09 C05*/
+__CPROVER_ensures(LIVE_SAME && g_hook_allocs == __CPROVER_old(g_hook_allocs) && g_hook_frees == __CPROVER_old(g_hook_frees) && g_libc_calls == __CPROVER_old(g_libc_calls)) /*@C09 C14 C08*/
+__CPROVER_assigns(GHOST_LOG, GHOST_WB, GHOST_ALLOC);
+
+/* cJSON_Print / cJSON_PrintUnformatted: forward to print with format 1 / 0 and the global hooks */
+const cJSON *g_pr_item; cJSON_bool g_pr_format; const internal_hooks *g_pr_hooks; unsigned char *g_pr_ret; size_t g_pr_calls;
+#define GHOST_PR g_pr_item, g_pr_format, g_pr_hooks, g_pr_ret, g_pr_calls
+#if defined(VF_ENF_cJSON_Print) || defined(VF_ENF_cJSON_PrintUnformatted)
+static unsigned char *print_cv(const cJSON * const item, cJSON_bool format, const internal_hooks * const hooks)
+__CPROVER_requires(hooks == &global_hooks)
+__CPROVER_ensures(g_pr_item == item && g_pr_format == format && g_pr_hooks == hooks && g_pr_ret == __CPROVER_return_value && g_pr_calls == __CPROVER_old(g_pr_calls) + 1)
+__CPROVER_assigns(GHOST_PR, GHOST_ALLOC);
+#endif
+CJSON_PUBLIC(char *) cJSON_Print(const cJSON *item)
+__CPROVER_requires(g_pr_calls == 0)
+__CPROVER_ensures(g_pr_calls == 1 && g_pr_item == item && g_pr_format == 1 && g_pr_hooks == &global_hooks && (unsigned char*)__CPROVER_return_value == g_pr_ret) /*@C05 C04*/
+__CPROVER_assigns(GHOST_PR, GHOST_ALLOC);
+CJSON_PUBLIC(char *) cJSON_PrintUnformatted(const cJSON *item)
+__CPROVER_requires(g_pr_calls == 0)
+__CPROVER_ensures(g_pr_calls == 1 && g_pr_item == item && g_pr_format == 0 && g_pr_hooks == &global_hooks && (unsigned char*)__CPROVER_return_value == g_pr_ret) /*@C05 C04*/
+__CPROVER_assigns(GHOST_PR, GHOST_ALLOC);
